@@ -166,6 +166,16 @@ def sniVerdict (cfgs : List Cfg) (r : Casket.VHost.Req) (sni : Option Bytes) (o 
       else "ok"
   | _, _ => "ok"
 
+/-- one connection, SNI and Host apart (stream `c06.cross`): whatever config governed the handshake
+made under `sni`, a request `r` (Host `r.host`) over that connection is served by a site that demands client
+certificates (check on) only if the two names agree.  A rejected site set has no listener and a
+plaintext listener has no handshake: nothing to demand. -/
+def crossSHVerdict (cfgs : List Cfg) (sni : Bytes) (r : Casket.VHost.Req) (o : Obs × Served) : String :=
+  match o.1 with
+  | .error _ => "ok"
+  | .plain => "ok"
+  | _ => sniVerdict cfgs r (some sni) o.2
+
 def sameClientAuth (c d : Cfg) : Bool := c.clientAuth == d.clientAuth && c.clientCerts == d.clientCerts
 
 /-- SNI = Host = one name: a site that demands client certificates (check not switched off) serves
